@@ -35,7 +35,8 @@ def skip_inv(path):
 
 
 def after_entry(sc, res):
-    pass
+    import spec_checks
+    spec_checks.run(sc, res)
 
 
 # Documented preconditions: the only `requires` an entry point may keep (DESIGN appendix D).
